@@ -6,7 +6,7 @@
 package data
 
 //@ import "sort"
-//@ props C15,C01
+//@ props C15,C01,C07
 
 //@ -- representation invariant: strictly ascending, hence duplicate-free
 //@ pure func sortedStrict(a []int) bool = forall i, j int :: 0 <= i && i < j && j < len(a) ==> a[i] < a[j]
@@ -85,7 +85,7 @@ package data
 //@   assigns  nothing
 
 //@ func (m IntMap) clone() (r IntMap)
-//@   props C15,C14,C01
+//@   props C15,C14,C01,C07
 //@   ensures  r.data != nil && fresh(r.data)
 //@   ensures  [dom] forall k int :: dom(r.data, k) == dom(m.data, k)
 //@   ensures  [val] forall k int :: r.data[k] == m.data[k]
